@@ -297,6 +297,9 @@ func judgeQuery(c queryCase, note func(r qref, w want, known string)) string {
 	}
 	r := refParse(c.Src)
 	if r.valid {
+		if c.ExpStart >= 0 {
+			return fmt.Sprintf("accepted, although by construction the token %q at byte %d cannot continue any production", c.ExpToken, c.ExpStart)
+		}
 		rec.Discard("query/still-valid")
 		return ""
 	}
@@ -467,4 +470,88 @@ func buildQuery(p *prng, stages int, chars, eolKind string, module bool, breakEv
 		sb.WriteByte(src[i])
 	}
 	return sb.String()
+}
+
+// ---------------------------------------------------------------------------
+// colons after variables and identifiers.  `::` joins a module name only when
+// an identifier follows; otherwise the text lexes as separate tokens, exactly
+// as if blanks stood between them.  The oracle is that relation: the same
+// fragment written with blanks between its tokens (which never enters the
+// `::` look-ahead) must be accepted / rejected alike, at the corresponding
+// token.
+
+type colonFrag struct {
+	tight string
+	toks  []string
+}
+
+var colonFrags = []colonFrag{
+	{"$x::", []string{"$x", ":", ":"}},
+	{"$x::1", []string{"$x", ":", ":", "1"}},
+	{"$x:: y", []string{"$x", ":", ":", "y"}},
+	{"$x::$y", []string{"$x", ":", ":", "$y"}},
+	{"$__loc__::", []string{"$__loc__", ":", ":"}},
+	{"foo::", []string{"foo", ":", ":"}},
+	{"foo::1", []string{"foo", ":", ":", "1"}},
+	{"foo:: bar", []string{"foo", ":", ":", "bar"}},
+	{"a::b::c", []string{"a::b", ":", ":", "c"}},
+	{"::", []string{":", ":"}},
+	{":::", []string{":", ":", ":"}},
+	{"$x:", []string{"$x", ":"}},
+	{"$x:::y", []string{"$x", ":", ":", ":", "y"}},
+	{".[$i::2]", []string{".", "[", "$i", ":", ":", "2", "]"}},
+	{".[$i:$j:]", []string{".", "[", "$i", ":", "$j", ":", "]"}},
+	{"{$x::1}", []string{"{", "$x", ":", ":", "1", "}"}},
+	{"1 as $x::| 2", []string{"1", "as", "$x", ":", ":", "|", "2"}},
+	{"$x::é", []string{"$x", ":", ":", "é"}},
+	{"\"漢\" as $x::. | $x", []string{"\"漢\"", "as", "$x", ":", ":", ".", "|", "$x"}},
+}
+
+// colonCase inserts fragment f at a lexeme boundary of a valid source and
+// derives the expectation from the blank-separated spelling.  verdict: ""
+// (a queryCase with ExpStart / ExpToken to judge), "valid" (the tight
+// spelling must parse as well), "skip".
+func colonCase(src string, at int, f colonFrag) (c queryCase, verdict string) {
+	spaced := strings.Join(f.toks, " ")
+	var tightOff, spacedOff []int
+	for pos, sp, i := 0, 0, 0; i < len(f.toks); i++ {
+		for pos < len(f.tight) && f.tight[pos] == ' ' {
+			pos++
+		}
+		if !strings.HasPrefix(f.tight[pos:], f.toks[i]) {
+			return c, "skip"
+		}
+		tightOff, spacedOff = append(tightOff, pos), append(spacedOff, sp)
+		pos += len(f.toks[i])
+		sp += len(f.toks[i]) + 1
+	}
+	base := at + 1
+	tightSrc := src[:at] + " " + f.tight + " " + src[at:]
+	r := refParse(src[:at] + " " + spaced + " " + src[at:])
+	c = queryCase{Src: tightSrc, ExpStart: -1}
+	if r.valid {
+		return c, "valid"
+	}
+	if !r.ok {
+		return c, "skip"
+	}
+	start := r.start
+	switch {
+	case start < base:
+	case start >= base+len(spaced):
+		start += len(f.tight) - len(spaced)
+	default:
+		k := -1
+		for i, o := range spacedOff {
+			if base+o == start && f.toks[i] == r.token {
+				k = i
+			}
+		}
+		if k < 0 {
+			return c, "skip"
+		}
+		start = base + tightOff[k]
+	}
+	c.ExpStart, c.ExpToken = start, r.token
+	return c, ""
 }
